@@ -82,10 +82,12 @@ CALLS = SETQ + ['geo_assignments', 'treatment_group_size_range', 'count_max_desi
                 'control_groups', 'treatment_groups_first', 'control_groups_first', 'exh', 'greedy', 'search_results']
 
 
-def fresh_object(inst):
+def fresh_object(inst, preindex=False):
+  """preindex: the data object has been used before the searcher is built (geo index set, aggregates read) - the
+  reference answers always come from objects built from untouched data."""
   from matched_markets.methodology import tbrmatchedmarkets
   keep = {}
-  data, par, ids = mm.build_objects(inst, {'keep': keep})
+  data, par, ids = mm.build_objects(inst, {'keep': keep, 'preindex': preindex})
   return tbrmatchedmarkets.TBRMatchedMarkets(data, par), par, keep['df']
 
 
@@ -100,7 +102,7 @@ def fresh_answers(inst):
 def replay_history(args):
   inst, fresh, hist = args
   try:
-    mmo, par, df = fresh_object(inst)
+    mmo, par, df = fresh_object(inst, preindex=(len(hist) + len(hist[0]['call'])) % 2 == 0)
   except Exception as e:  # pylint: disable=broad-except
     return ('Construction', '%s: %s' % (type(e).__name__, e), 0)
   par0 = dataclasses.asdict(par)
@@ -130,6 +132,9 @@ def replay_history(args):
 
 SHAPES = [
     # (name, settings applied on top of a random instance)
+    # a geo that may not be excluded, a truncating n_geos_max and a budget range together
+    ('must_include_nmax_budget', dict(tr=(0, 0), cr=(0, 0), nmax='n-1', want_budget=True, budget_mode='wide',
+                                      share=(0, 0, 0, 0), must_include=True)),
     ('tr_only_budget', dict(tr=(1, 2), cr=(0, 0), want_budget=True, budget_mode='wide', share=(0, 0, 0, 0), nmax=0)),
     ('no_ranges_ratio', dict(tr=(0, 0), cr=(0, 0), gtol=(2, 1), want_budget=False, share=(0, 0, 0, 0), nmax=0)),
     ('cr_only_share', dict(tr=(0, 0), cr=(1, 3), share=(2, 100, 90, 100), want_budget=False, nmax=0)),
@@ -152,10 +157,15 @@ def pick_instances(seed, count):
       inst = mm.gen_instance(rng, len(out) + 1, 'random', nmax_geos=4)
       if inst['n'] < 3:
         continue
-      inst.update(settings)
+      inst.update({k: v for k, v in settings.items() if k != 'must_include'})
+      if inst['nmax'] == 'n-1':
+        inst['nmax'] = inst['n'] - 1
       inst['budget'] = None
       inst['default_elig'] = True
       inst['elig'] = ['ctx'] * inst['n']
+      if settings.get('must_include'):
+        inst['default_elig'] = False
+        inst['elig'][rng.randint(0, inst['n'] - 1)] = rng.choice(['ct', 'c', 't'])
       inst['extra_elig_row'] = False
       inst['float_ints'] = False
       inst['par']['n_designs'] = rng.choice([2, 3, 5])
@@ -197,7 +207,7 @@ def run(res):
   rng = random.Random(res.seed)
   sims = rs.json_lines()
   sims = rng.sample(sims, min(len(sims), 6000 if thorough else 500))
-  insts = pick_instances(res.seed, 8 if thorough else 4)
+  insts = pick_instances(res.seed, 9 if thorough else 5)
   if len(insts) < 3:
     raise tlc.MachineryError('could not build instances with non-empty results for the parameter shapes')
   fresh = [i.pop('fresh') for i in insts]
